@@ -45,6 +45,7 @@ loop:
 		case arg == "--":
 			LOG.Printf("arg %#v is dash\n", arg)
 			inArgs = append(inArgs, context.Args[i:]...)
+			inFlag = nil // a flag that takes any number of arguments ends here
 			break loop
 
 		// flag
